@@ -13,6 +13,9 @@ D_ShapesAll == {Shape(p, f, e, t) : p \in AllPre, f \in AllForm, e \in AllEol, t
 D_ShapesCore == {Shape(p, f, "lf", "none") : p \in {"none", "bom", "shebang", "garbage"}, f \in {"table", "string", "raise", "expr"}}
                 \cup {Shape("none", "table", "crlf", "none"), Shape("none", "nothing", "lf", "none"),
                       Shape("none", "table", "lf", "unfinished"), Shape("bom", "nothing", "lf", "none")}
+\* for the longest histories: one compiling and two non-compiling prefixes x values that are cached / not cached
+D_ShapesMin == {Shape(p, f, "lf", "none") : p \in {"none", "bom", "shebang"}, f \in {"table", "string"}}
+               \cup {Shape("none", "raise", "lf", "none"), Shape("none", "expr", "lf", "none")}
 
 DevIdeal == {}
 DevRecompiled == {"RecompiledChunkNotConfined"}
